@@ -227,6 +227,43 @@ def run(tier, fx=None, ck=None, control=False):
                 ck.finding("N1.exportable-kinds", "N1.exportable-kinds/%s/%s" % (p, "+".join(sorted(a ^ ref))), F.short_span(fx.fns[p].span),
                            "`%s` publishes exported %s on the namespace object but the module export step handles %s: `export %s` inside a "
                            "namespace is not visible as a member" % (p, sorted(a), sorted(ref), "/".join(sorted(ref - a)) or "?"))
+    # ------------------------------------------------------------ N2
+    # TypeScript's emit assigns each exported member right after its declaration (`N.a = 1; N.b = N.a + 1;`): an initialiser (or a function it
+    # calls) may read the namespace object while the body is still running.  The publication step therefore sits in the loop that compiles the
+    # body statements, not in a second pass after it.
+    ck.rule("N2.publish-in-source-order", "a namespace member is published in the same turn of the body loop that compiles its declaration", floor=1)
+    import loops as L
+
+    def stmt_compile_blocks(g):
+        return {bi for bi, t in g.calls() if t[1].get("local") and (t[1].get("d") or "").split("::")[-1] in ("compile_statement_impl", "compile_statement")}
+
+    def innermost_loop(g, b):
+        ls = [(h, body) for h, body in L.natural_loops(g) if b in body]
+        return min(ls, key=lambda x: len(x[1])) if ls else None
+    for p in sorted(ns_sets):
+        f = fx.fns[p]
+        sbs = [sw[0] for sw in M.enum_switches(fx, f) if (sw[1].endswith("ast::Statement") or sw[1].endswith("c04::Statement"))
+               and any(v in ns_sets[p] for v in sw[3])]
+        sites = []   # (function, block that publishes)
+        for sb in sbs:
+            if innermost_loop(f, sb):
+                sites.append((f, sb))
+            else:
+                for q, g in comp.items():
+                    for bi, t in g.calls():
+                        if t[1].get("d") == p:
+                            sites.append((g, bi))
+        for g, b in sites:
+            lp = innermost_loop(g, b)
+            if lp is None:
+                ck.note("N2: publication in %s is not inside a loop (not decided)" % g.path)
+                continue
+            ok = bool(stmt_compile_blocks(g) & lp[1])
+            ck.instance("N2.publish-in-source-order", "%s publishes inside the body loop" % g.path, F.short_span(g.blocks[b]["t"][-1]) if isinstance(g.blocks[b]["t"][-1], str) else F.short_span(g.span), ok=ok)
+            if not ok:
+                ck.finding("N2.publish-in-source-order", "N2.publish-in-source-order/%s" % g.path, F.short_span(g.span),
+                           "`%s` publishes the exported members in a loop that does not compile the statements: the namespace object stays empty while the body "
+                           "runs, so `namespace C { export const a = 10; export const b = C.a * 2 }` gives NaN (TypeScript assigns `C.a` before `b` is initialised)" % g.path)
     if not own:
         return None
     ctl = F.load_fixture()
